@@ -422,7 +422,7 @@ def train_multi_agent_off_policy(
                 for score in pop_episode_scores
                 if score
             ]
-            if pop_episode_scores:
+            if pop_mean_scores:
                 mean_scores = np.stack(pop_mean_scores, axis=0)
                 mean_score_dict = {
                     "train/mean_score/" + agent: np.mean(mean_scores[:, idx], axis=-1)
